@@ -46,21 +46,23 @@ def rotate (m : MeshVal (List s)) (name : String) (q : quaternion.Quaternion s) 
 /-- `Mesh.ApplyTRS`: `v ↦ trs.Transform v` on Position -/
 def applyTRS (m : MeshVal (List s)) (t : trs.TRS s) := m.mapAttr posKey (liftV3 fun v => t.Transform v)
 
-/-- centre of the bounding box as `CenterFloat3Attribute` computes it (center_attribute.go:33-41) -/
-def centerOf (d : List (V3 s)) : V3 s :=
+/-- centre of the bounding box as `CenterFloat3Attribute` computes it (center_attribute.go:33-41);
+    `mn`, `mx` are Go's `math.Min` / `math.Max` (their NaN / ±Inf conventions differ from the generic
+    `Scalar` min/max, so they are parameters: the driver passes bit-faithful ones) -/
+def centerOf (mn mx : s → s → s) (d : List (V3 s)) : V3 s :=
   let inf : s := ((1 : Nat) : s) / ((0 : Nat) : s)
-  let mn := d.foldl (fun acc v => V3.Min acc v) ⟨inf, inf, inf⟩
-  let mx := d.foldl (fun acc v => V3.Max acc v) ⟨-inf, -inf, -inf⟩
-  mn.Midpoint mx
+  let lo := d.foldl (fun acc v => (⟨mn acc.x v.x, mn acc.y v.y, mn acc.z v.z⟩ : V3 s)) ⟨inf, inf, inf⟩
+  let hi := d.foldl (fun acc v => (⟨mx acc.x v.x, mx acc.y v.y, mx acc.z v.z⟩ : V3 s)) ⟨-inf, -inf, -inf⟩
+  lo.Midpoint hi
 
 /-- `CenterFloat3Attribute`: `v ↦ v - centre` -/
-def center (m : MeshVal (List s)) (name : String) :=
-  m.modifyAttr ⟨3, name⟩ fun d => d.map (liftV3 fun v => v.Sub (centerOf (d.filterMap v3?)))
+def center (mn mx : s → s → s) (m : MeshVal (List s)) (name : String) :=
+  m.modifyAttr ⟨3, name⟩ fun d => d.map (liftV3 fun v => v.Sub (centerOf mn mx (d.filterMap v3?)))
 
-/-- `NormalizeAttribute3D`: `v ↦ v / maxLength`; `init` is Go's `-math.MaxFloat64` -/
-def normalize (init : s) (m : MeshVal (List s)) (name : String) :=
+/-- `NormalizeAttribute3D`: `v ↦ v / maxLength`; `init` is Go's `-math.MaxFloat64`, `mx` is `math.Max` -/
+def normalize (init : s) (mx : s → s → s) (m : MeshVal (List s)) (name : String) :=
   m.modifyAttr ⟨3, name⟩ fun d =>
-    d.map (liftV3 fun v => v.DivByConstant ((d.filterMap v3?).foldl (fun acc v => max acc v.Length) init))
+    d.map (liftV3 fun v => v.DivByConstant ((d.filterMap v3?).foldl (fun acc v => mx acc v.Length) init))
 
 /-! ### normals -/
 
